@@ -70,6 +70,7 @@ Section Inv.
   Hypothesis H_add_layer : forall l k s, P s -> P (p_add_layer A l k s).
   Hypothesis H_del_layer : forall l s, P s -> P (p_del_layer A l s).
   Hypothesis H_set_gattr : forall a s, P s -> P (p_set_gattr A a s).
+  Hypothesis H_clear_all : forall s, P s -> P (p_clear_all A s).
   Hypothesis H_restrict : forall ns s, P s -> P (p_restrict A ns s).
 
   Lemma add_nodes_inv ns a s : P s -> P (add_nodes A ns a s).
@@ -131,6 +132,7 @@ Section Sim.
   Hypothesis H_add_layer : forall l k s t, R s t -> R (p_add_layer A l k s) (p_add_layer B l k t).
   Hypothesis H_del_layer : forall l s t, R s t -> R (p_del_layer A l s) (p_del_layer B l t).
   Hypothesis H_set_gattr : forall a s t, R s t -> R (p_set_gattr A a s) (p_set_gattr B a t).
+  Hypothesis H_clear_all : forall s t, R s t -> R (p_clear_all A s) (p_clear_all B t).
   Hypothesis H_restrict : forall ns s t, R s t -> R (p_restrict A ns s) (p_restrict B ns t).
 
   Lemma sel_ok_sim x s t : R s t -> sel_ok A x s = sel_ok B x t.
